@@ -7,11 +7,16 @@ the digest after hashing; derive_key xors the mask into EVERY byte; create_keys 
 (K' ^ 0x36.., K' ^ 0x5c..); Hmac::new absorbs i_key first; raw_result computes inner result ->
 reset -> input(o_key) -> input(inner) -> result, once; output_bytes is the digest's; every legacy
 digest delegates to the hashing context of its name.
+  shape-eval Hmac (new / input / raw_result / reset) against RFC 2104 with an UNINTERPRETED digest (transcript -> fresh symbols), every
+             key length class x message split x {result, result again, reset + next message}; sizes derived from the code's
+             length constants.  Independent of how the code is organised; the structural rules stay as cross-checks
+  shape-eval BLAKE2 keyed (re)initialisation for every key length (engine from (outlen, key.len()), buffer = key || zeros,
+             buflen one block iff keyed) and the legacy wrappers' key retention, constructors kept opaque
 Not decided: the digests themselves (C01)."""
 from . import objects
 
 EXPLANATION = __doc__
-TECHNIQUE = "evaluated size constants vs. specification table, linear-form predicate of the key-expansion branch, iterator-coverage and call-order rules"
+TECHNIQUE = "evaluated size constants vs. specification table, linear-form predicate of the key-expansion branch, iterator-coverage and call-order rules; object-level bounded shape evaluation with an uninterpreted digest / PRF (transcript terms) against the RFC's defining term"
 
 
 def run(ctx):
